@@ -1,5 +1,12 @@
-From Coq Require Import List Arith.
+From Coq Require Import List Arith ZArith.
 From BQ Require Import map.Graph.
+From BQ Require Import map.GraphFloyd.
+From BQ Require Import map.GraphExt.
+From BQ Require Import map.Kron.
 From Coq Require Extraction ExtrOcamlBasic.
 Extraction "graph_model.ml" mk_adj is_fully_connected is_fully_connected_without degrees is_linear
-  floyd unit_mat shortest_path_tree subgraphs_of_size get_subgraph perm_loop push_wire sort.
+  floyd unit_mat shortest_path_tree subgraphs_of_size get_subgraph perm_loop push_wire sort
+  mk_mat floyd_ref fw_ijk
+  mk_graph edges_of all_to_all linear ring star grid is_embedded_in induced_subgraph relabel_subgraph
+  maximal_matching
+  kron otimes mmul ident ipower apply_right apply_left swap_mat from_qudit_location perm_matrix complete_perm.
